@@ -131,6 +131,16 @@ func nondetSites() (string, error) {
 							if strings.HasPrefix(class, "call:") && callCopiesEntry(x, info, fset, decls) {
 								class = "copy-entries"
 							}
+							if inner := guardedByMissingKey(x); inner != nil {
+								// `if _, ok := g[key]; !ok { <statement> }`: classified by the statement under the guard
+								ic := bodyClass(inner, nil, info)
+								if strings.HasPrefix(ic, "call:") && callCopiesEntry(inner, info, fset, decls) {
+									ic = "copy-entries"
+								}
+								if ic == "copy-entries" {
+									class = "copy-missing-entries"
+								}
+							}
 							if class == "other" {
 								// a loop that stops at the first key that matches: what it answers is a function of
 								// the map only when at most one key can match; the keys are part of the site
@@ -231,6 +241,53 @@ func bodyClass(rs *ast.RangeStmt, next ast.Stmt, info *types.Info) string {
 		}
 	}
 	return "other"
+}
+
+// guardedByMissingKey: the loop's single statement is `if _, ok := g[key]; !ok { one statement }` (no else) where key is the
+// loop's own key variable and the index expression g contains no call other than a method without arguments;
+// returns the loop with the guarded statement as its body
+func guardedByMissingKey(rs *ast.RangeStmt) *ast.RangeStmt {
+	if len(rs.Body.List) != 1 || rs.Key == nil {
+		return nil
+	}
+	is, ok := rs.Body.List[0].(*ast.IfStmt)
+	if !ok || is.Else != nil || is.Init == nil || len(is.Body.List) != 1 {
+		return nil
+	}
+	as, ok := is.Init.(*ast.AssignStmt)
+	if !ok || as.Tok != token.DEFINE || len(as.Lhs) != 2 || len(as.Rhs) != 1 {
+		return nil
+	}
+	blank, ok1 := as.Lhs[0].(*ast.Ident)
+	okv, ok2 := as.Lhs[1].(*ast.Ident)
+	ix, ok3 := as.Rhs[0].(*ast.IndexExpr)
+	if !ok1 || !ok2 || !ok3 || blank.Name != "_" {
+		return nil
+	}
+	if exprText(ix.Index) != exprText(rs.Key) || !isRangeVar(rs, ix.Index) {
+		return nil
+	}
+	ue, ok := is.Cond.(*ast.UnaryExpr)
+	if !ok || ue.Op != token.NOT {
+		return nil
+	}
+	if id, ok := ue.X.(*ast.Ident); !ok || id.Name != okv.Name {
+		return nil
+	}
+	// the looked-up map: an identifier, a field, or a getter call without arguments (TypesList())
+	pure := true
+	ast.Inspect(ix.X, func(n ast.Node) bool {
+		if ce, ok := n.(*ast.CallExpr); ok && len(ce.Args) != 0 {
+			pure = false
+		}
+		return true
+	})
+	if !pure {
+		return nil
+	}
+	cp := *rs
+	cp.Body = is.Body
+	return &cp
 }
 
 // callCopiesEntry: the loop's single statement is a call m(key, value) with the loop's own variables, and the callee - found
